@@ -68,7 +68,7 @@ def handleSeries (l : Line) : IO Unit := do
     IO.println s!"obs {l.id} det=0 tables={hexList names}"
   let wf := Spec.Series.WF env opts pol evs
   let kf := if wf then "" else " kf=N6"
-  IO.println s!"spec {l.id} inv=1 rep=1 dump={showSeries (Spec.Series.specSeries env opts pol evs)}{kf}"
+  IO.println s!"spec {l.id} inv=1 rep=1 twice=1 sumtwice=1 keep=1 rebuild=1 dump={showSeries (Spec.Series.specSeries env opts pol evs)}{kf}"
 
 /-! bootstrap -/
 
@@ -176,6 +176,9 @@ def handle (l : Line) : IO Unit := do
   | "series" => handleSeries l
   | "boot" => handleBoot l
   | "multi" => handleMulti l
+  -- JSON round trip of a summarised series handed back as `existing` (not modelled): the restored summaries
+  -- survive, new points get their own summaries, the axes are the sorted unions
+  | "json" => IO.println s!"spec {l.id} kept=1 newsame=1 axes=1"
   | "pct" => handlePct l
   | "date" => handleDate l
   | "dpair" => handlePair l
